@@ -113,7 +113,7 @@ def run(tier: str, seed: int) -> int:
         except Exception:
             stats["compile_failed"] += 1
             continue
-        ops = G.gen_ops(r, r.randint(1, max_ops))
+        ops = G.gen_ops(r, r.randint(1, max_ops), saveload=True)
         recs, eng = R.run_history(story, ops)
         if eng is None or any(x["obs"][0] == "timeout" for x in recs):
             continue
@@ -204,7 +204,7 @@ def run(tier: str, seed: int) -> int:
         with C.quiet():
             eng.undo_stack.clear()
             eng.redo_stack.clear()
-        cont = G.gen_ops(r, r.randint(2, max_ops))
+        cont = G.gen_ops(r, r.randint(2, max_ops), saveload=True)
         ra, _ = continue_history(eng, story, cont)
         rb, _ = continue_history(fresh, story, cont)
         for k2, (a, b) in enumerate(zip(ra, rb)):
@@ -222,14 +222,15 @@ def run(tier: str, seed: int) -> int:
             md, tag = mutate_doc(doc, r, names)
             stats["malformed"][tag.split(":")[0]] = stats["malformed"].get(tag.split(":")[0], 0) + 1
             with C.quiet():
-                target = cls(copy.deepcopy(story))
-                # a running game WITH history (undo and redo both available when the story allows it): a rejected
-                # load must leave that untouched too
-                for step in ("choose", "choose", "undo"):
-                    try:
-                        target.choose(0) if step == "choose" else target.undo()
-                    except Exception:  # noqa
-                        pass
+                # a running game WITH history, somewhere in the story - often past the first section of a @join passage
+                # (undo and redo both available when the story allows it): a rejected load must leave all of it untouched
+                pre = [("choose_valid", r.randint(0, 5)) for _ in range(r.randint(1, 4))]
+                if g.joins and r.random() < 0.6:
+                    pre = [("choose_text", "Enter " + r.choice(g.joins), 0)] + [("choose_text", "Join", r.randint(0, 5)) for _ in range(r.randint(1, 3))]
+                pre += [("choose_valid", r.randint(0, 5)), ("undo",)]
+                _, target = R.run_history(story, pre)
+                if target is None:
+                    target = cls(copy.deepcopy(story))
                 vb = R.view(target)
                 depth_b = (len(target.undo_stack), len(target.redo_stack))
                 try:
